@@ -24,13 +24,14 @@ class WorldC08(World):
     PROP = 'C08'
     RUNS = {'quick': 5000, 'thorough': 100000}
     WALL = {'quick': 50, 'thorough': 560}
-    STATE_CHANGING = ('mkspecies', 'mkrxn', 'mkcond', 'editcond', 'editspecies')
+    STATE_CHANGING = ('mkspecies', 'mkrxn', 'mkcond', 'editcond', 'editspecies', 'rescale', 'badcall', 'mkbep')
     STATE_RULE = 'number of species / reactions / condition dictionaries, how many reactions share a species, blocks per dictionary'
     PROBES = ('species-in-three-reactions', 'condition-dict-reused', 'block-for-one-species', 'block-for-absent-species',
               'fractional-stoichiometry', 'two-transition-state-species', 'species-on-both-sides', 'edit-then-evaluate',
               'rev-and-act', 'Keq-product', 'chemkin-unclamped', 'surface-unclamped', 'mixed-model-classes', 'q-ratio',
               'from-string', 'bep-transition-state', 'bep-shared-by-two-reactions', 'flags-as-numpy-bool', 'flags-as-int',
-              'Keq-of-activation', 'arrhenius-Ea-explicit-molecularity')
+              'Keq-of-activation', 'arrhenius-Ea-explicit-molecularity', 'two-reactions-from-one-string',
+              'coefficients-edited-in-place', 'rejected-call-then-valid-calls')
     REAL = ('pmutt.reaction.Reaction / ChemkinReaction / pmutt.omkm.reaction.SurfaceReaction getters',
             'pmutt._get_specie_kwargs / _force_pass_arguments', 'StatMech, Nasa, Shomate species')
     SIMULATED = ('1-3 clients evaluating reactions over shared species and shared, re-used condition dictionaries',)
@@ -44,7 +45,8 @@ class WorldC08(World):
                                                                   ['StatMech', 'Nasa']]),
                 'w_eval': rng.choice([3, 5]), 'w_edit': rng.choice([0, 1, 2]),
                 'rxn_classes': rng.choice([['Reaction'], ['Reaction', 'ChemkinReaction', 'SurfaceReaction']]),
-                'names': rng.choice(['plain', 'plain', 'case', 'affix']), 'n_bep': rng.choice([0, 0, 1, 2])}
+                'names': rng.choice(['plain', 'plain', 'case', 'affix']), 'n_bep': rng.choice([0, 0, 1, 2]),
+                'w_hist': rng.choice([0, 0, 1, 2])}
 
     def n_steps(self, rng, swarm):
         return swarm['n_species'] + swarm['n_rxn'] + swarm['n_cond'] + rng.randint(5, 30)
@@ -91,6 +93,14 @@ class WorldC08(World):
             return {'c': c, 'op': 'mkbep', 'args': {'id': len(self.bep), 'slope': round(rng.uniform(0, 1), 3),
                                                     'intercept': round(rng.uniform(0, 40), 2),
                                                     'descriptor': rng.choice(BEP_DESCRIPTORS)}}
+        twins = [r_ for r_ in sorted(self.rxn) if self.rxm[r_].get('string')]
+        if twins and sw.get('w_hist') and len(self.rxn) < sw['n_rxn'] + 2 and rng.random() < 0.15:
+            # a second reaction object made from the very same reaction string
+            m0 = self.rxm[rng.choice(twins)]
+            return {'c': c, 'op': 'mkrxn', 'args': {'id': len(self.rxn), 'cls': 'Reaction',
+                                                    'reactants': [list(x) for x in m0['reactants0']],
+                                                    'products': [list(x) for x in m0['products0']],
+                                                    'ts': [list(x) for x in m0['ts0']], 'from_string': True}}
         if len(self.rxn) < sw['n_rxn'] and (not self.rxn or rng.random() < 0.5):
             ids = sorted(self.sp)
             if self.bep and rng.random() < 0.6:
@@ -118,6 +128,8 @@ class WorldC08(World):
                 'products': [[i, st()] for i in rng.sample(ids, npd)],
                 'ts': [[i, 1] for i in rng.sample(ids, min(n_ts, len(ids)))],
                 'from_string': cls == 'Reaction' and rng.random() < 0.2}}
+        if False:
+            pass
         if len(self.cond) < sw['n_cond'] and (not self.cond or rng.random() < 0.3):
             blocks = {}
             for i in sorted(self.sp):
@@ -129,8 +141,16 @@ class WorldC08(World):
             if rng.random() < 0.7:
                 d['P'] = round(10 ** rng.uniform(-3, 2), 4)
             return {'c': c, 'op': 'mkcond', 'args': {'id': len(self.cond), 'top': d, 'blocks': blocks}}
-        kinds = ['eval'] * sw['w_eval'] + ['editcond', 'editspecies'] * sw['w_edit']
+        kinds = ['eval'] * sw['w_eval'] + ['editcond', 'editspecies'] * sw['w_edit'] + ['rescale', 'badcall'] * sw.get('w_hist', 0)
         kind = rng.choice(kinds)
+        if kind == 'rescale':
+            cand = [r_ for r_ in sorted(self.rxn) if self.rxm[r_].get('bep') is None]
+            if cand:
+                return {'c': c, 'op': 'rescale', 'args': {'rxn': rng.choice(cand), 'f': rng.choice([2.0, 0.5, 3.0, 0.25])}}
+            kind = 'eval'
+        if kind == 'badcall':
+            return {'c': c, 'op': 'badcall', 'args': {'rxn': rng.choice(sorted(self.rxn)),
+                                                      'q': rng.choice(['GoRT', 'HoRT', 'SoR'])}}
         if kind == 'editcond':
             k = rng.choice(sorted(self.cond))
             names = [self.sp[i].name for i in sorted(self.sp)]
@@ -197,7 +217,10 @@ class WorldC08(World):
             if v is None:
                 return None, None
             if q == 'q':
-                tot *= v ** nu
+                try:
+                    tot *= v ** nu
+                except OverflowError:
+                    tot = float('inf')         # outside floating-point range: nothing can be demanded (see _close)
             else:
                 tot += nu * v
                 scale += abs(nu * v)
@@ -260,6 +283,7 @@ class WorldC08(World):
                 raise Skip()
             if a['cls'] != 'Reaction' and any(self.spk[i] == 'StatMech' for i, _ in allm):
                 raise Skip()
+            made_from = None
             R = [self.sp[i] for i, _ in a['reactants']]
             P = [self.sp[i] for i, _ in a['products']]
             TS = [self.sp[i] for i, _ in a['ts']] or None
@@ -276,6 +300,7 @@ class WorldC08(World):
                 s = fmt(a['reactants']) + '=' + ((fmt(a['ts']) + '=') if a['ts'] else '') + fmt(a['products'])
                 by_name = {self.sp[i].name: self.sp[i] for i in self.sp}
                 rxn = self.real(self.rx.Reaction.from_string, s, by_name, _what='Reaction.from_string(%r)' % s)
+                made_from = s
             elif a['cls'] == 'Reaction':
                 rxn = self.real(self.rx.Reaction, _what='Reaction constructor', **kw)
             elif a['cls'] == 'ChemkinReaction':
@@ -284,7 +309,11 @@ class WorldC08(World):
                 rxn = self.real(self.orx.SurfaceReaction, _what='SurfaceReaction constructor', **kw)
             self.rxn[a['id']] = rxn
             self.rxm[a['id']] = {'reactants': [tuple(x) for x in a['reactants']], 'products': [tuple(x) for x in a['products']],
-                                 'ts': [tuple(x) for x in a['ts']], 'cls': a['cls'], 'bep': a.get('bep')}
+                                 'ts': [tuple(x) for x in a['ts']], 'cls': a['cls'], 'bep': a.get('bep'), 'string': made_from,
+                                 'reactants0': [tuple(x) for x in a['reactants']], 'products0': [tuple(x) for x in a['products']],
+                                 'ts0': [tuple(x) for x in a['ts']]}
+            if made_from and any(m_.get('string') == made_from for k_, m_ in self.rxm.items() if k_ != a['id']):
+                ctx.probe('two-reactions-from-one-string')
             if any(n != int(n) for _, n in allm):
                 ctx.probe('fractional-stoichiometry')
             if len(a['ts']) == 2:
@@ -298,6 +327,31 @@ class WorldC08(World):
                 if n >= 3:
                     ctx.probe('species-in-three-reactions')
             out = a['cls']
+        elif name == 'rescale':
+            if a['rxn'] not in self.rxn or self.rxm[a['rxn']].get('bep') is not None:
+                raise Skip()
+            rxn, m = self.rxn[a['rxn']], self.rxm[a['rxn']]
+            f = a['f']
+            # the caller puts the reaction on another basis by editing its coefficient lists in place
+            for attr, key in (('reactants_stoich', 'reactants'), ('products_stoich', 'products'),
+                              ('transition_state_stoich', 'ts')):
+                lst = getattr(rxn, attr)
+                if lst is None:
+                    continue
+                for i_ in range(len(lst)):
+                    lst[i_] *= f
+                m[key] = [(sid, nu * f) for sid, nu in m[key]]
+            ctx.probe('coefficients-edited-in-place')
+            self.edited = True
+            out = 'rescaled'
+        elif name == 'badcall':
+            if a['rxn'] not in self.rxn:
+                raise Skip()
+            try:
+                getattr(self.rxn[a['rxn']], 'get_delta_' + a['q'])(P=2.0)        # the temperature was forgotten
+            except Exception:
+                ctx.probe('rejected-call-then-valid-calls')
+            out = 'bad call'
         elif name == 'mkcond':
             if a['id'] in self.cond:
                 raise Skip()
